@@ -496,3 +496,111 @@ def parse_retry_times(ck):
     ck.coverage["parse_retry_ms_at_depth_10_12_14"] = ms
     if all(isinstance(x, int) and x > 0 for x in ms):
         ck.coverage["parse_retry_ratio_per_two_levels"] = [round(ms[1] / ms[0], 2), round(ms[2] / ms[1], 2)]
+
+
+# ----------------------------------------------------------------------------- arithmetic at singular points
+ARITH_OPS = ["+", "-", "*", "/", "//", "%", "**", "==", "<", "&&", "||", "??"]
+ARITH_VALS = ["0", "1", "-1", "2", "10", "-10", str(I64MAX), str(-I64MAX), "0.0", "-0.0", "1.5", "null", "true"]
+ARITH_INTS = [0, 1, -1, 2, 10, -10, I64MAX, I64MIN, I64MIN + 1]
+
+
+def arith_singular_cases(ck):
+    """every arithmetic / logical std operator x literal operands at the singular points (0, -1, i64::MIN / MAX, ...):
+    directly in source, through `let` constants (constant folding sees the literal only after inlining), and with the
+    literals of the PL / RQ JSON of `a op b` replaced (i64::MIN cannot be written in source).  A pure literal change is
+    never classified as an unvalidated-document finding: any panic here is a VIOLATION."""
+    rng = ck.rng
+    out = []
+
+    def add(fam, entry, src, **kw):
+        out.append(dict({"entry": entry, "src": src, "stack_mb": 64, "family": fam, "prog": None}, **kw))
+
+    pairs = [(a, b) for a in ARITH_VALS for b in ARITH_VALS]
+    for op in ARITH_OPS:
+        sel = pairs if ck.thorough else [(a, b) for a, b in pairs if "0" in (a, b) or "-1" in (a, b) or str(I64MAX) in (a, b)][:40] + rng.sample(pairs, 12)
+        for a, b in sel:
+            e = "(%s) %s (%s)" % (a, op, b)
+            add("arith:src", "compile", "from t | derive x = %s | filter (%s) != 3" % (e, e), target=rng.choice(["sql.generic", "sql.sqlite", "sql.postgres", "sql.mssql", "sql.bigquery"]))
+            add("arith:let", "compile", "let p = %s\nlet q = %s\nfrom t | derive x = p %s q | take (1 + 1)" % (a, b, op), target="sql.generic")
+    for un in ("-", "!", "+"):
+        for a in ARITH_VALS:
+            add("arith:src", "compile", "from t | derive x = %s(%s)" % (un, a), target="sql.generic")
+            add("arith:let", "compile", "let p = %s\nfrom t | derive x = %sp" % (a, un), target="sql.generic")
+    # PL / RQ documents of `7 op 3` with the two literals replaced
+    for op in ("+", "-", "*", "/", "//", "%", "**"):
+        src = "from t | derive x = 7 %s 3" % op
+        pl = harness("pl", [{"src": src}])[0]
+        rq = harness("rq", [{"src": src}])[0]
+        for a in ARITH_INTS:
+            for b in ARITH_INTS:
+                if not ck.thorough and rng.random() < 0.5 and 0 not in (a, b) and I64MIN not in (a, b):
+                    continue
+                if "ok" in pl:
+                    t = json.dumps(pl["ok"]).replace('{"Integer": 7}', '{"Integer": %d}' % a).replace('{"Integer": 3}', '{"Integer": %d}' % b)
+                    add("arith:pl", "json_pl", t, prog=src)
+                if "ok" in rq:
+                    t = json.dumps(rq["ok"]).replace('{"Integer": 7}', '{"Integer": %d}' % a).replace('{"Integer": 3}', '{"Integer": %d}' % b)
+                    add("arith:rq", "json_rq", t, prog=src, target=rng.choice(["sql.generic", "sql.sqlite", "sql.mssql", "sql.duckdb"]))
+    return out
+
+
+# ----------------------------------------------------------------------------- RQ documents: column-name mixes x dialects
+RQCOL_PROGRAMS = [
+    "from t | select {a, b}", "from t | select {a, b} | take 3", "from t | derive {c = a + 1} | select {a, c}",
+    "from t | select {a, a + 1}", "from t | select {t.*} | select !{a}", "from t | join u (==a) | select {t.a, u.b}",
+    "from t | group {a} (aggregate {n = count b})", "from t | select {a, b} | append (from u | select {a, b})",
+    "from t | select {a, b} | sort a | take 2..4 | derive {r = a * 2}", "from t | window rows:-1..1 (derive {s = sum b}) | select {a, s}",
+]
+DIALECTS12 = ["sql.generic", "sql.sqlite", "sql.postgres", "sql.mssql", "sql.mysql", "sql.bigquery", "sql.clickhouse",
+              "sql.duckdb", "sql.snowflake", "sql.ansi", "sql.glaredb", "sql.redshift"]
+
+
+def _relcol_slots(doc):
+    """every place of an RQ document that holds a RelationColumn: (container, key)"""
+    out = []
+
+    def walk(v):
+        if isinstance(v, dict):
+            if isinstance(v.get("columns"), list):
+                cols = v["columns"]
+                for i, c in enumerate(cols):
+                    if isinstance(c, list) and len(c) == 2:      # TableRef.columns: [RelationColumn, cid]
+                        out.append((c, 0))
+                    else:                                           # Relation.columns
+                        out.append((cols, i))
+            for x in v.values():
+                walk(x)
+        elif isinstance(v, list):
+            for x in v:
+                walk(x)
+    walk(doc)
+    return out
+
+
+def rq_column_cases(ck):
+    """RQ documents prqlc emitted, with the NAMES of their columns edited -- nameless `{"Single": null}`, `"Wildcard"`, another
+    name -- in every position that holds a RelationColumn, on every dialect.  Names are not ids: the documents stay well
+    formed (rq_wf), so none of this is C12-N3; any panic is a VIOLATION."""
+    rng = ck.rng
+    out = []
+    rqs = harness("rq", [{"src": p} for p in RQCOL_PROGRAMS])
+    edits = [{"Single": None}, "Wildcard", {"Single": "x"}, {"Single": "a"}, {"Single": ""}]
+    for p, a in zip(RQCOL_PROGRAMS, rqs):
+        if "ok" not in a:
+            continue
+        n = len(_relcol_slots(a["ok"]))
+        plans = [[(i, e)] for i in range(n) for e in edits[:2]]                       # every single slot nameless / wildcard
+        plans += [[(i, edits[0]) for i in range(n)], [(i, edits[1]) for i in range(n)]]  # all nameless, all wildcards
+        for _ in range(ck.n(6, 60)):
+            plans.append([(i, rng.choice(edits)) for i in range(n) if rng.random() < 0.5])
+        for plan in plans:
+            d = copy.deepcopy(a["ok"])
+            slots = _relcol_slots(d)
+            for i, e in plan:
+                c, k = slots[i]
+                c[k] = copy.deepcopy(e)
+            text = json.dumps(d)
+            ds = DIALECTS12 if len(plan) != 1 or ck.thorough else ["sql.generic", "sql.bigquery", "sql.snowflake", "sql.duckdb", "sql.clickhouse", "sql.mssql"]
+            for dialect in ds:
+                out.append({"entry": "json_rq", "src": text, "stack_mb": 64, "family": "rqcols", "prog": p, "target": dialect})
+    return out
